@@ -490,6 +490,98 @@ def scenario_env(ck, stats, var, L):
     rmtree_long(sb.root)
 
 
+_rewrite_name = {}
+
+
+def scenario_rewrite_path(ck, stats, k, action):
+    """A message in a deep maildir whose own path fits, rewritten (label / add-header) under a generated name that is k characters
+    too long for PATH_MAX, then piped to a command: a decoy file sits exactly at the truncation of the new path.  The command must
+    never be fed from the decoy, and the run must not end without an error."""
+    pins = {'VFIO_HOST': 'pinned', 'VFIO_TIME': '1700000000', 'VFIO_PID': '4242', 'VFIO_RANDOM': '5'}
+    shim = os.path.join(common.VERIF, 'shim', 'libvfio.so')
+    helper = common.rec_helper()
+    rule = {b'label': b'label "x"', b'add-header': b'add-header "X-New" "v"'}[action]
+    if action not in _rewrite_name:
+        # the name the rewrite generates under these pins, learnt from a run in a short maildir
+        sb0 = mdrun.Sandbox()
+        s0 = sb0.maildir('src')
+        sb0.add(s0, 'new', b'To: a\nX-Id: real\n\nb\n', name='m')
+        c0 = sb0.write_conf(b'maildir "%s" {\n match header "X-Id" /real/ %s\n}\n' % (s0.encode(), rule))
+        sb0.run([], conf=c0, env=pins, preload=shim)
+        names = [n for (_, n) in sb0.snapshot(s0)]
+        sb0.cleanup()
+        if len(names) != 1 or names[0] == 'm':
+            return
+        _rewrite_name[action] = names[0]
+    gen = _rewrite_name[action]
+    sb = mdrun.Sandbox()
+    hout = os.path.join(sb.root, 'helper-out'); os.makedirs(hout)
+    L = PATH_MAX - 1 + k - len('/new/') - len(gen)           # len(root/new/gen) = PATH_MAX - 1 + k
+    root = deep_dir(sb.root, L)
+    if root is None:
+        sb.cleanup(); return
+    makedirs_long(root + '/new'); makedirs_long(root + '/cur')
+    real = b'To: a\nX-Id: real\n\nthe real message\n'
+    decoy_text = b'To: a\nX-Id: decoy\n\nDECOY AT THE TRUNCATED PATH\n'
+    cwd = os.getcwd()
+    try:
+        os.chdir('/')
+        for comp in (root + '/new').strip('/').split('/'):
+            os.chdir(comp)
+        open('m', 'wb').write(real)
+        open(gen[:len(gen) - k], 'wb').write(decoy_text)
+    finally:
+        os.chdir(cwd)
+    conf = sb.write_conf(b'maildir "%s" {\n match header "X-Id" /real/ %s exec stdin { "%s" "r" }\n}\n' % (root.encode(), rule, helper.encode()))
+    env = dict(pins); env.update({'VERIF_HELPER_OUT': hout, 'VERIF_HELPER_EXIT': '0'})
+    rc, out, err = sb.run([], conf=conf, env=env, preload=shim)
+    stats['binary'] += 1
+    calls = common.helper_calls(hout)
+    rep = {'scenario': 'rewrite_path', 'k': k, 'action': action.decode(), 'exit': rc, 'stderr': err[-300:].decode(errors='replace')}
+    fed = [c['stdin'] for c in calls]
+    if any(b'the real message' not in f for f in fed):
+        ck.violation('%s in a maildir where the rewritten message path is %d characters too long: the command was fed %r - the file at the '
+                     'truncated path - instead of the message (exit %d)' % (action.decode(), k, fed[0][:60], rc), rep)
+    elif rc == 0:
+        ck.violation('%s in a maildir where the rewritten message path is %d characters too long: exit 0 without any error' % (action.decode(), k), rep)
+    rmtree_long(sb.root)
+
+
+def scenario_tmpdir_exec(ck, stats, L):
+    """TMPDIR of length L and three messages piped to a command with exec stdin body: the temporary file "<TMPDIR>/mdsort-XXXXXXXX"
+    either fits for every message or for none - the command never runs on a file created under a shortened name."""
+    sb = mdrun.Sandbox()
+    src = sb.maildir('src')
+    helper = common.rec_helper()
+    hout = os.path.join(sb.root, 'helper-out'); os.makedirs(hout)
+    bodies = [b'body of message %d\n' % i for i in range(3)]
+    for i, b in enumerate(bodies):
+        sb.add(src, 'new', b'To: a\nX-Id: %d\n\n' % i + b)
+    long_dir = deep_dir(sb.root, L)
+    if long_dir is None:
+        sb.cleanup(); return
+    try:
+        if len(long_dir) < PATH_MAX:
+            makedirs_long(long_dir)
+    except OSError:
+        pass
+    conf = sb.write_conf(b'maildir "%s" {\n match all exec stdin body { "%s" "t" }\n}\n' % (src.encode(), helper.encode()))
+    rc, out, err = sb.run([], conf=conf, env={'TMPDIR': long_dir, 'VERIF_HELPER_OUT': hout, 'VERIF_HELPER_EXIT': '0'})
+    stats['binary'] += 1
+    calls = common.helper_calls(hout)
+    fits = L + len('/mdsort-XXXXXXXX') < PATH_MAX
+    rep = {'scenario': 'TMPDIR-exec', 'length': L, 'exit': rc, 'calls': len(calls), 'stderr': err[-300:].decode(errors='replace')}
+    if fits:
+        if rc != 0 or sorted(c['stdin'] for c in calls) != sorted(bodies):
+            ck.violation('TMPDIR of length %d, exec stdin body on 3 messages: the temporary file name fits, but exit %d and the command received %r'
+                         % (L, rc, [c['stdin'] for c in calls]), rep)
+    else:
+        if calls or rc == 0:
+            ck.violation('TMPDIR of length %d, exec stdin body on 3 messages: "<TMPDIR>/mdsort-XXXXXXXX" does not fit in PATH_MAX, yet the command ran %d time(s) '
+                         '(exit %d): a temporary file was created under a shortened name' % (L, len(calls), rc), rep)
+    rmtree_long(sb.root)
+
+
 def run(ck):
     model = common.model_exe()
     stats = dict(evals=0, nontrivial=set(), dis=0, viol=0, binary=0)
@@ -543,12 +635,18 @@ def run(ck):
     for L in range(PATH_MAX - w, PATH_MAX + 2, step * 2):
         scenario_env(ck, stats, 'HOME', L)
         scenario_env(ck, stats, 'TMPDIR', L)
+    for L in range(PATH_MAX - 16 - 5, PATH_MAX - 16 + 5):
+        scenario_tmpdir_exec(ck, stats, L)
+    for k in (1, 2, 3, 5, 8, 12):
+        scenario_rewrite_path(ck, stats, k, b'label' if k % 2 else b'add-header')
+        if ck.tier == 'thorough':
+            scenario_rewrite_path(ck, stats, k, b'add-header' if k % 2 else b'label')
     ck.coverage.update({
         'evaluations': stats['evals'] + stats['binary'],
         'distinct_nontrivial': len(stats['nontrivial']),
         'rule': 'pathslice: every path of <= %d components from {"", a, bc, new, md.x} (absolute/relative, trailing slash, empty components) x beg,end in a symmetric '
                 'range x buffer sizes {0,1,2,64,len-1,len,len+1}; pathjoin: lengths around the buffer size; binary: maildir path, interpolated destination, interpolated isdirectory path (directories at the intended path and at its truncations), ~-expanded maildir / destination / isdirectory strings of every length PATH_MAX-3 .. PATH_MAX+2 (judged with -n and at run time), host name, '
-                'HOME and TMPDIR at every (quick: every other) length in a window around PATH_MAX / NAME_MAX with decoy maildirs at truncations. '
+                'the path of a message rewritten by label / add-header and then piped to a command, 1-12 characters too long with a decoy file at its truncation, TMPDIR as the place of the exec stdin body temporary file over three messages (every length PATH_MAX-21 .. PATH_MAX-12), HOME and TMPDIR at every (quick: every other) length in a window around PATH_MAX / NAME_MAX with decoy maildirs at truncations. '
                 'non-trivial = the reference returns a string; distinct = distinct requests' % (4 if ck.tier == 'quick' else 5),
         'exhaustive': True,
         'samples': [c for c, _ in cases[1000:1004]],
@@ -581,6 +679,10 @@ def replay(ck, rp):
         scenario_message_path(ck, stats, rp['k'], rp['rule'].encode())
     elif sc == 'hostname':
         scenario_hostname(ck, stats, rp['length'], rp.get('collide', 0))
+    elif sc == 'rewrite_path':
+        scenario_rewrite_path(ck, stats, rp['k'], rp['action'].encode())
+    elif sc == 'TMPDIR-exec':
+        scenario_tmpdir_exec(ck, stats, rp['length'])
     elif sc in ('HOME', 'TMPDIR'):
         scenario_env(ck, stats, sc, rp['length'])
     elif sc == 'tilde':
